@@ -49,6 +49,7 @@ const (
 	sSlice   // A[lo:hi]
 	sConvert // conversion of A to T
 	sTuple   // explicit tuple of Kids (modelled or inlined call results)
+	sStruct  // struct value: base A (may be nil = zero value) with overridden fields F
 )
 
 type Sym struct {
@@ -62,6 +63,7 @@ type Sym struct {
 	C    constant.Value
 	iter int // loop generation for values redefined in a loop
 	Kids []*Sym
+	F    map[string]*Sym
 	key  string
 }
 
@@ -130,6 +132,13 @@ func (s *Sym) Key() string {
 		k = "slice(" + s.A.Key() + "," + s.Str + ")"
 	case sConvert:
 		k = "conv(" + s.A.Key() + "," + s.T.String() + ")"
+	case sStruct:
+		var ks []string
+		for f, x := range s.F {
+			ks = append(ks, f+"="+x.Key())
+		}
+		sort.Strings(ks)
+		k = "struct(" + s.A.Key() + ";" + strings.Join(ks, ",") + ")"
 	case sTuple:
 		var ks []string
 		for _, x := range s.Kids {
@@ -164,6 +173,7 @@ type Event struct {
 	Res    *Sym
 	Store  bool // a store: Args[0]=address, Args[1]=value
 	StoreI *ssa.Store
+	Deref  []*Sym // for pointer arguments to tracked locals: the value pointed to at the time of the call
 }
 
 type pstate struct {
@@ -178,11 +188,12 @@ type pstate struct {
 	visits map[*ssa.BasicBlock]int
 	iters  map[ssa.Value]int
 	trail  []string // branch decisions, for diagnostics
+	escaped map[*ssa.Alloc]bool
 }
 
 func newState() *pstate {
 	return &pstate{env: map[ssa.Value]*Sym{}, cells: map[*ssa.Alloc]*Sym{}, facts: map[string]bool{}, dyn: map[string]types.Type{},
-		notdyn: map[string][]types.Type{}, eqc: map[string]string{}, neqc: map[string]map[string]bool{}, visits: map[*ssa.BasicBlock]int{}, iters: map[ssa.Value]int{}}
+		notdyn: map[string][]types.Type{}, eqc: map[string]string{}, neqc: map[string]map[string]bool{}, visits: map[*ssa.BasicBlock]int{}, iters: map[ssa.Value]int{}, escaped: map[*ssa.Alloc]bool{}}
 }
 
 func (s *pstate) clone() *pstate {
@@ -220,6 +231,9 @@ func (s *pstate) clone() *pstate {
 		n.iters[k] = v
 	}
 	n.trail = append([]string(nil), s.trail...)
+	for k, v := range s.escaped {
+		n.escaped[k] = v
+	}
 	return n
 }
 
@@ -337,7 +351,8 @@ func (ps *PathSim) exec(fn *ssa.Function, st *pstate, ins ssa.Instruction) {
 	switch x := ins.(type) {
 	case *ssa.Alloc:
 		st.env[x] = &Sym{K: sFresh, V: x, T: x.Type(), iter: gen(x)}
-		delete(st.cells, x)
+		st.cells[x] = zeroSym(x.Type().Underlying().(*types.Pointer).Elem())
+		delete(st.escaped, x)
 	case *ssa.MakeSlice, *ssa.MakeMap, *ssa.MakeChan:
 		v := ins.(ssa.Value)
 		st.env[v] = &Sym{K: sFresh, V: v, T: v.Type(), iter: gen(v)}
@@ -381,16 +396,14 @@ func (ps *PathSim) exec(fn *ssa.Function, st *pstate, ins ssa.Instruction) {
 				st.env[x] = &Sym{K: sNot, A: a, T: x.Type(), V: x}
 			}
 		case token.MUL:
-			if al, ok := x.X.(*ssa.Alloc); ok {
-				if c, ok := st.cells[al]; ok {
-					st.env[x] = c
+			addr := ps.sym(st, x.X)
+			if al, path, ok := localPath(addr); ok {
+				if v, ok := loadLocal(st, al, path, x.Type()); ok {
+					st.env[x] = v
 					return
 				}
-				// zero value of the cell
-				st.env[x] = zeroSym(x.Type())
-				return
 			}
-			st.env[x] = &Sym{K: sLoad, A: ps.sym(st, x.X), T: x.Type(), V: x}
+			st.env[x] = &Sym{K: sLoad, A: addr, T: x.Type(), V: x}
 		default:
 			st.env[x] = &Sym{K: sOpaque, V: x, T: x.Type(), iter: gen(x)}
 		}
@@ -428,11 +441,12 @@ func (ps *PathSim) exec(fn *ssa.Function, st *pstate, ins ssa.Instruction) {
 		// handled at edge time
 	case *ssa.Store:
 		val := ps.sym(st, x.Val)
-		if al, ok := x.Addr.(*ssa.Alloc); ok {
-			st.cells[al] = val
-			return
-		}
 		addr := ps.sym(st, x.Addr)
+		if al, path, ok := localPath(addr); ok {
+			if storeLocal(st, al, path, val) {
+				return
+			}
+		}
 		st.events = append(st.events, Event{In: fn, Store: true, StoreI: x, Args: []*Sym{addr, val}})
 	case *ssa.Call:
 		ps.execCall(fn, st, x, x)
@@ -464,8 +478,105 @@ func zeroSym(t types.Type) *Sym {
 		}
 	case *types.Pointer, *types.Interface, *types.Slice, *types.Map, *types.Chan, *types.Signature:
 		return &Sym{K: sConst, C: nil, T: t}
+	case *types.Struct:
+		return &Sym{K: sStruct, A: nil, F: map[string]*Sym{}, T: t}
 	}
 	return &Sym{K: sOpaque, T: t, Str: "zero"}
+}
+
+// localPath: is addr the address of (a field path inside) a local allocation?
+func localPath(addr *Sym) (*ssa.Alloc, []string, bool) {
+	var path []string
+	for addr != nil && addr.K == sFieldAddr {
+		path = append([]string{addr.Str}, path...)
+		addr = addr.A
+	}
+	if addr == nil || addr.K != sFresh {
+		return nil, nil, false
+	}
+	al, ok := addr.V.(*ssa.Alloc)
+	return al, path, ok
+}
+
+func getPath(v *Sym, path []string) *Sym {
+	for _, f := range path {
+		if v == nil {
+			return nil
+		}
+		if v.K == sStruct {
+			if x, ok := v.F[f]; ok {
+				v = x
+				continue
+			}
+			if v.A == nil {
+				// zero field: type unknown here
+				return &Sym{K: sStruct, A: nil, F: map[string]*Sym{}, Str: "zero." + f}
+			}
+			v = &Sym{K: sField, A: v.A, Str: f}
+			continue
+		}
+		v = &Sym{K: sField, A: v, Str: f}
+	}
+	return v
+}
+
+func setPath(v *Sym, path []string, val *Sym) *Sym {
+	if len(path) == 0 {
+		return val
+	}
+	var n *Sym
+	if v != nil && v.K == sStruct {
+		n = &Sym{K: sStruct, A: v.A, F: map[string]*Sym{}, T: v.T}
+		for k, x := range v.F {
+			n.F[k] = x
+		}
+	} else {
+		n = &Sym{K: sStruct, A: v, F: map[string]*Sym{}}
+	}
+	n.F[path[0]] = setPath(getPath(v, path[:1]), path[1:], val)
+	return n
+}
+
+func loadLocal(st *pstate, al *ssa.Alloc, path []string, t types.Type) (*Sym, bool) {
+	if st.escaped[al] {
+		return nil, false
+	}
+	c, ok := st.cells[al]
+	if !ok {
+		return nil, false
+	}
+	v := getPath(c, path)
+	if v == nil {
+		return nil, false
+	}
+	if v.K == sStruct && v.A == nil && len(v.F) == 0 && t != nil {
+		if _, isStruct := t.Underlying().(*types.Struct); !isStruct {
+			return zeroSym(t), true
+		}
+	}
+	return v, true
+}
+
+func storeLocal(st *pstate, al *ssa.Alloc, path []string, val *Sym) bool {
+	if st.escaped[al] {
+		return false
+	}
+	st.cells[al] = setPath(st.cells[al], path, val)
+	return true
+}
+
+// readOnlyCallee: externals known not to write through their pointer arguments.
+func readOnlyCallee(fn *ssa.Function) bool {
+	if fn == nil || fn.Pkg == nil {
+		return false
+	}
+	switch fn.Pkg.Pkg.Path() {
+	case "github.com/mitchellh/pointerstructure":
+		return fn.Name() == "Get" || fn.Name() == "String"
+	case "fmt", "errors", "strings", "strconv":
+		return true
+	}
+	return false
 }
 
 func (ps *PathSim) execCall(fn *ssa.Function, st *pstate, ci ssa.CallInstruction, val *ssa.Call) {
@@ -478,6 +589,19 @@ func (ps *PathSim) execCall(fn *ssa.Function, st *pstate, ci ssa.CallInstruction
 	}
 	for _, a := range com.Args {
 		ev.Args = append(ev.Args, ps.sym(st, a))
+	}
+	ev.Deref = make([]*Sym, len(ev.Args))
+	for i, a := range ev.Args {
+		if al, path, ok := localPath(a); ok {
+			if v, ok := loadLocal(st, al, path, nil); ok {
+				ev.Deref[i] = v
+			}
+			if !readOnlyCallee(ev.Callee) {
+				// the callee may write through the pointer
+				delete(st.cells, al)
+				st.escaped[al] = true
+			}
+		}
 	}
 	if val != nil {
 		st.iters[val]++
